@@ -102,6 +102,25 @@ def i16CodecFloat : Codec Float Int where
   toF := fun v => Float.ofInt v / 32768.0
   ofF := fun q => (q * 32768.0).toInt16.toInt
 
+/-- `i32` samples on the native `f64`: `s as f64 / 2_147_483_648.0` (conv.rs:304-306, exact) and
+    `(s * 2_147_483_648.0) as i32` (conv.rs:555, truncating saturating cast). Driver only. -/
+def i32CodecFloat : Codec Float Int where
+  toF := fun v => (Int32.ofInt v).toFloat / 2147483648.0
+  ofF := fun q => (q * 2147483648.0).toInt32.toInt
+
+/-- `u32` samples: through `i32` both ways (conv.rs:467-473, 486: `to_f64(to_i32(s))`, `to_i32` subtracts 2^31;
+    conv.rs:561 `i32::to_u32(to_i32(s))`, conv.rs:284-290 adds 2^31). Driver only. -/
+def u32CodecFloat : Codec Float Int where
+  toF := fun v => (Int32.ofInt (v - 2147483648)).toFloat / 2147483648.0
+  ofF := fun q => (q * 2147483648.0).toInt32.toInt + 2147483648
+
+/-- `i64` samples: `s as f64 / 9_223_372_036_854_775_808.0` (conv.rs:372-374; the cast rounds to nearest
+    even, which is what `Int64.toFloat` does) and `(s * 9_223_372_036_854_775_808.0) as i64` (conv.rs:557).
+    Driver only. -/
+def i64CodecFloat : Codec Float Int where
+  toF := fun v => (Int64.ofInt v).toFloat / 9223372036854775808.0
+  ofF := fun q => (q * 9223372036854775808.0).toInt64.toInt
+
 /-! ## The source: a finite list of frames, then equilibrium forever (`signal::from_iter`,
 signal lib.rs:1580-1602), with the pull counter the harness's instrumented source exposes.
 A frame is the list of its channels. -/
